@@ -100,3 +100,33 @@ pub fn draw_strategy(rng: &mut Rng, nthreads: usize, pause_sites: &[u32], est_st
 }
 
 pub fn hex(h: u64) -> String { format!("{:016x}", h) }
+
+/// the standard outer loop of a property: replay one recorded run, or draw runs until the budget is used up
+pub fn run_loop(args: &Args, acc: &mut Acc, mut single: impl FnMut(&Args, &mut Acc, u64, bool)) {
+    if let Some(rp) = &args.replay {
+        let seed = rp.get("run_seed").and_then(|j| j.as_i64()).unwrap_or(0) as u64;
+        single(args, acc, seed, true);
+        return;
+    }
+    let mut run = 0u64;
+    while acc.more() {
+        let seed = args.run_seed(run);
+        single(args, acc, seed, false);
+        run += 1;
+    }
+}
+
+/// stamps a violation record with what is needed to replay it and files it
+pub fn file_violation(args: &Args, acc: &mut Acc, seed: u64, verbose: bool, mut v: J) {
+    v.set("run_seed", J::i((seed & 0x7FFF_FFFF_FFFF_FFFF) as i64));
+    v.set("run_seed_hex", J::s(hex(seed)));
+    v.set("lane", J::s(if args.lane == Lane::Ser { "ser" } else { "free" }));
+    if let Some(o) = &args.only { v.set("only", J::s(o)); }
+    if verbose { eprintln!("{}", v.to_string()) }
+    acc.violation(v);
+}
+
+/// a violation record with a single signature
+pub fn violation(anomaly: &str, kind: &str, what: String) -> J {
+    J::obj().with("what", J::s(what)).with("sigs", J::Arr(vec![J::obj().with("anomaly", J::s(anomaly)).with("kind", J::s(kind))]))
+}
